@@ -255,7 +255,21 @@ func (p *Program) genOnce(fn *ssa.Function, key string, opts GenOpts, pre map[st
 			vc.axiom(t)
 		}
 	}
-	if opts.LockOnly && opts.TC != nil && opts.TC.Lock != "" && fr.recvRef != "" {
+	if opts.LockOnly && opts.TC != nil && strings.HasPrefix(opts.TC.Lock, "global ") {
+		// `lock global NAME`: the discipline's lock is a package-level mutex variable (one lock for every instance of the
+		// type); the units may also be plain functions and unexported methods (goroutine bodies) listed under `methods`
+		name := strings.TrimSpace(strings.TrimPrefix(opts.TC.Lock, "global "))
+		var gv *types.Var
+		if tp := p.typesPkgByName(opts.TC.Pkg); tp != nil {
+			gv, _ = tp.Scope().Lookup(name).(*types.Var)
+		}
+		if gv == nil {
+			return nil, nil, fmt.Errorf("%s: lock global %s: no such package-level variable in package %s", key, name, opts.TC.Pkg)
+		}
+		fr.lockAddr = vc.globalAddr(gv)
+		fr.globalLock = true
+		vc.axiom("(= " + vc.hget(st, "held", "(Array Int Bool)") + " ((as const (Array Int Bool)) false))")
+	} else if opts.LockOnly && opts.TC != nil && opts.TC.Lock != "" && fr.recvRef != "" {
 		S := args[0].T.Underlying().(*types.Pointer).Elem()
 		fr.lockAddr = vc.emb(S, opts.TC.Lock, fr.recvRef)
 		for _, f := range structFields(S) {
